@@ -667,7 +667,31 @@ def skeleton_request(reaction, align: str, variant: int) -> str:
 
 # ============================================================================ T2a: create_spin_range
 
+_CALL_LOG: list[str] = []  # every create_spin_range call of this process made by the harness, in order
+
+
+def _log_call(value, flag, scribble, result):
+    _CALL_LOG.append(f"create_spin_range({value!r}, no_zero_spin={flag})" + (" ; result.append(99.0)" if scribble else "")
+                     + f" -> {result}")
+    return result
+
+
+def call_history(n: int = 12) -> dict:
+    return {"note": "same process; before these calls the run formulated the aligned models of the corpus "
+                    "(axis-angle with a massless spin-1 final state among them)",
+            "harness_calls_so_far": len(_CALL_LOG), "last_calls": _CALL_LOG[-n:]}
+
+
 def real_range(value, flag, scribble: bool = False):
+    try:
+        with time_limit(3):
+            res = _real_range(value, flag, scribble)
+    except CaseTimeout:
+        res = "Timeout"
+    return _log_call(value, flag, scribble, res)
+
+
+def _real_range(value, flag, scribble: bool = False):
     from ampform.helicity.align._spin import create_spin_range
 
     try:
@@ -929,6 +953,18 @@ class C05Property:
         chk.info("inferred_variant", {"checksZeroMember": bool(variant)})
         failing = []  # (signature, replay)
 
+        # does the loop of create_spin_range terminate at all? (otherwise nothing that formulates an
+        # axis-angle model may be run: it would fill the memory)
+        stuck = [(v, f) for v in (0, 0.5, 1, 1.5, 2) for f in (False, True) if real_range(v, f) == "Timeout"]
+        if stuck:
+            v, f = stuck[0]
+            chk.failing_input(
+                {"class": "create_spin_range does not terminate"},
+                {"input": {"call": f"create_spin_range({v!r}, no_zero_spin={f})"}, "observed": "no result within 3 s",
+                 "expected": expected_range(int(2 * v), f), "skipped": "skeleton correspondence and numeric oracle"})
+            chk.coverage["rule"] = "run stopped after the termination probe of create_spin_range"
+            return chk.finish()
+
         if variant == 0:
             # the Lean witness C05_witness_range_pinned, replayed on the real function
             failing.append((
@@ -1070,8 +1106,8 @@ class C05Property:
                     if s2 >= 0 and real != expected_range(s2, flag):
                         failing.append((
                             {"class": "create_spin_range deviates from -s..s", "spin": f"{s2}/2", "flag": flag},
-                            {"input": {"call": f"create_spin_range({value!r}, no_zero_spin={flag})"}, "observed": real,
-                             "expected": expected_range(s2, flag)}))
+                            {"input": {"call": f"create_spin_range({value!r}, no_zero_spin={flag})", "history": call_history()},
+                             "observed": real, "expected": expected_range(s2, flag)}))
                 if (s2, flag) in ((1, True), (2, True)):
                     chk.sample({"create_spin_range": f"{s2}/2", "no_zero_spin": flag, "real": real_range(s2 / 2, flag), "lean": lean})
             elif item[0] == "history":
@@ -1087,8 +1123,7 @@ class C05Property:
                 if real != expected_range(s2, flag):
                     failing.append((
                         {"class": "create_spin_range deviates from -s..s", "spin": f"{s2}/2", "flag": flag},
-                        {"input": {"call": f"create_spin_range({s2 / 2!r}, no_zero_spin={flag})",
-                                   "history": "after earlier calls of create_spin_range / formulate in the same process"},
+                        {"input": {"call": f"create_spin_range({s2 / 2!r}, no_zero_spin={flag})", "history": call_history()},
                          "observed": real, "expected": expected_range(s2, flag)}))
             else:
                 key = item[1]
@@ -1160,7 +1195,7 @@ class C05Property:
         if thorough:
             chosen = mixed3 + pick_rng.sample(mixed4, 2) + pick_rng.sample(general, 10)
         else:
-            chosen = pick_rng.sample(mixed3, 4)
+            chosen = pick_rng.sample([n for n in mixed3 if cost(n) <= 110], 4)
         chosen += [n for n in sorted(forced) if n in syn_reactions and n not in chosen][:4]
         for n in chosen:
             reaction, cls, key, types, _ = syn_reactions[n]
@@ -1365,10 +1400,17 @@ MANIFEST = {
         "Tie: create_spin_range vs model exhaustively for 2s=-6..20 x flag x argument type; the skeleton extracted "
         "from the real model.intensity (amplitude indices with signs, every Wigner factor with its index symbols and "
         "WHICH rotation it is, summed indices with pools, outer pools) equals the model's for 14 corpus cases x "
-        "{none, axis-angle, DPD 1,2,3} incl. a 4-body topology, massless spin-1/2 and spin-3/2 synthetic particles; "
+        "{none, axis-angle, DPD 1,2,3} incl. a 4-body topology, massless spin-1/2 and spin-3/2 synthetic particles, and at "
+        "amplitude level (SpinAlignment.formulate_amplitude) for 399 hand-built single-topology reactions: every assignment "
+        "of {massless 1/2, massless 1, massive 1, massive 1/2, spin 0} to the three slots x every spectator choice, and "
+        "every ordered placement of one massless spin-1/2 against one massive spin-1 on three 3-body and two 4-body "
+        "topologies; create_spin_range additionally in a seeded 160-call history (interleaved flags, repeated spins) and "
+        "re-probed after the oracle incl. callers that write into the returned list; "
         "SymPy's Rotation.D = phase*d*phase checked symbolically. Oracle: intensities of the five real models at the "
-        "same physical events and random couplings (1e-9; quick 6 reactions, thorough 12 incl. spin 3/2, massive "
-        "spin 1 at depth 1 and 2, 4-body), formulation probe for every case. NOT proved: that the numerical angle "
+        "same physical events and random couplings (1e-9; quick 6 corpus + 4 seeded mixed placements, thorough 12 corpus "
+        "incl. spin 3/2, massive spin 1 at depth 1 and 2, 4-body + all 18 three-body mixed placements + 12 more "
+        "synthetic), formulation probe for every case; per-case wall-clock caps and an oracle time budget (skipped "
+        "cases are counted in the evidence). NOT proved: that the numerical angle "
         "values are what the formalism prescribes (irrelevant for one topology: any real angle gives a unitary); "
         "the hypothesis 'complete pools' is forced - DPD with a photon ({-1,+1} observed) is covered by the oracle "
         "only; the re-indexing between SymPy's (j,m) and the doubled integers is part of the trusted harness."
@@ -1379,7 +1421,8 @@ MANIFEST = {
         "semantically irrelevant); SymPy's evaluation of Rotation.d/D, PoolSum.evaluate and lambdify/numpy are "
         "executed, not modelled; qrules objects are inputs. Modelled, not executed: PoolSum semantics (psum), "
         "Decimal/float arithmetic of create_spin_range on half-integers (exact in that range; checked exhaustively "
-        "to s=10). Known finding: AxisAngleAlignment with a massless spin>=1 final state. New, unjudged finding: "
-        "AxisAngleAlignment with a massless final state below a resonance gives NaN (notes/findings_C05.md)."
+        "to s=10). Known finding: AxisAngleAlignment with a massless spin>=1 final state. "
+        "Second known finding (found by this check): AxisAngleAlignment with a massless final state below a resonance "
+        "gives NaN (notes/findings_C05.md)."
     ),
 }
